@@ -358,19 +358,30 @@ class ConnectionManager:
                 (connect_task, closing_task),
                 return_when=FIRST_COMPLETED,
             )
+            closing_task.cancel()
+
+            if not connect_task.done():
+                # close() was called during back-off sleep or a pending connection attempt
+                connect_task.cancel()
+                await wait((connect_task,))
 
             if self._connection:
-                _, protocol = self._connection
-                done_task = ensure_future(protocol.done)
-                closing_task2 = create_task(self._is_closing.wait())
-                await wait(
-                    (done_task, closing_task2),
-                    return_when=FIRST_COMPLETED,
-                )
+                transport, protocol = self._connection
+                if self._is_closing.is_set():
+                    # the connection was established after close() was called
+                    transport.close()
+                else:
+                    done_task = ensure_future(protocol.done)
+                    closing_task2 = create_task(self._is_closing.wait())
+                    await wait(
+                        (done_task, closing_task2),
+                        return_when=FIRST_COMPLETED,
+                    )
+                    closing_task2.cancel()
 
-                if not self._is_closing.is_set():
-                    _LOGGER.warning("Connection lost")
-                    self._update_connection_lost_circuit_breaker()
+                    if not self._is_closing.is_set():
+                        _LOGGER.warning("Connection lost")
+                        self._update_connection_lost_circuit_breaker()
 
                 self._connection = None
 
